@@ -304,7 +304,15 @@ func (dc *TraditionalDnsConn) takeQueueC(qid uint16) chan<- *[]byte {
 func (dc *TraditionalDnsConn) addQueueC() (qid uint16, c chan *[]byte) {
 	c = make(chan *[]byte, 1)
 	dc.queueMu.Lock()
-	for i := 0; i < 100; i++ {
+	if len(dc.queue) > 0xffff {
+		dc.queueMu.Unlock()
+
+		// All qids are in use. Can't assign qid.
+		return 0, nil
+	}
+	// There is at least one free qid. Ids that are still in use (e.g. by queries
+	// that are waiting for a slow reply since the counter wrapped) are skipped.
+	for {
 		qid = dc.nextQid
 		dc.nextQid++
 		if _, dup := dc.queue[uint32(qid)]; dup {
@@ -314,10 +322,6 @@ func (dc *TraditionalDnsConn) addQueueC() (qid uint16, c chan *[]byte) {
 		dc.queueMu.Unlock()
 		return qid, c
 	}
-	dc.queueMu.Unlock()
-
-	// Too many queries in queue. Can't assign qid.
-	return 0, nil
 }
 
 // deleteQueueC removes c from the queue if it is still there. (The qid may have been
